@@ -29,6 +29,11 @@ def main():
     except ImportError:
         pass
     try:
+        import p_crash
+        runners.update(p_crash.RUNNERS)
+    except ImportError:
+        pass
+    try:
         import p_net
         runners.update(p_net.RUNNERS)
     except ImportError:
